@@ -79,7 +79,8 @@ def gas_molecule(draw, elements=None, max_tokens=3, allow_label=True, charges=(0
         else:
             merged.append([sym, c])
     lab = ""
-    if allow_label and draw(st.integers(0, 9)) == 0:
+    # ortho/para/meta labels only make sense on molecules (an "ortho atom" is not a species anybody writes)
+    if allow_label and sum(c for _, c in merged) >= 2 and draw(st.integers(0, 9)) == 0:
         lab = draw(st.sampled_from(LABELS))
     return {"k": "mol", "t": merged, "q": draw(st.sampled_from(list(charges))), "s": False, "l": lab}
 
